@@ -90,7 +90,31 @@ def gen_case(ctx, k):
         case["space"] = sp
         case["state"] = [float(rng.choice([0, 1, 2, 3, 5])) for _ in range(ns * w * h * d)]
         case["cls"] = "grid-mixed-boundaries"
-    if rng.random() < 0.4:
+    if rng.random() < 0.45:
+        # script units system other than the default: the engine works in the script's time unit (and in molecules)
+        case["units"] = {"time": rng.choice(["ms", "min", "s"]), "quantity": rng.choice(["molecule", "molecule", "nmol", "fmol"])}
+    if cls in (3, 7) and case["kind"] == "grid" and option == "gillespie":
+        # process history: an earlier run in the same process on a grid of the SAME shape with the OPPOSITE boundary conditions
+        dims = [1, rng.choice([1, 2]), rng.choice([3, 4])]
+        rng.shuffle(dims)
+        w, h, d = dims
+        first_periodic = rng.random() < 0.5
+        bc1 = {ax: ("periodical" if first_periodic else "reflecting") for ax in "xyz"}
+        bc2 = {ax: ("reflecting" if first_periodic else "periodical") for ax in "xyz"}
+        sp = dict(space)
+        sp.update({"w": w, "h": h, "d": d, "cell_env": [rng.randrange(nenv) for _ in range(w * h * d)], "boundary_conditions": bc2})
+        sp1 = dict(sp)
+        sp1["boundary_conditions"] = bc1
+        for s_ in case["net"]["species"]:
+            s_["D"] = float(rng.choice([1, 2]))
+        nsp = len(case["net"]["species"])
+        case["space"] = sp
+        case["state"] = [float(rng.choice([1, 2, 3, 5])) for _ in range(nsp * w * h * d)]
+        case["before"] = [{"net": case["net"], "space": sp1, "state": case["state"], "seed": 3, "iterations": 3}]
+        case["same_object"] = rng.random() < 0.5
+        case["cls"] = "history-same-shape-other-boundaries"
+        case.pop("chem", None)
+    if rng.random() < 0.4 and not case.get("before"):
         # explicit chemostat map: a species chemostated in some cells only (the flag masks the change, not the propensity)
         nn = len(case["state"]) // len(case["net"]["species"])
         nsp = len(case["net"]["species"])
@@ -104,7 +128,18 @@ def gen_case(ctx, k):
 
 
 def small(case):
-    return {k: case[k] for k in ("net", "space", "kind", "option", "seed", "dt", "tmax", "state", "max_iter", "edge", "chem") if k in case}
+    return {k: case[k] for k in ("net", "space", "kind", "option", "seed", "dt", "tmax", "state", "max_iter", "edge", "chem", "units", "before", "same_object") if k in case}
+
+
+def own_rates(case, arr):
+    """the oracle's rate law: constants and diffusion coefficients read from the network DESCRIPTION (own reading of the
+    environment keys, own unit conversion), geometry / stoichiometry from the marshalled arrays"""
+    k, D = stoch_gen.expected_tables(case["net"], case.get("units"))
+    edge = case["edge"]
+    if case["kind"] == "grid" and (case["space"]["w"], case["space"]["h"], case["space"]["d"]) != \
+            (arr["space"]["w"], arr["space"]["h"], arr["space"]["d"]):
+        edge = None
+    return stoch_gen.Rates(dict(arr, k=k, D=D), edge=edge)
 
 
 def apply_effect(x, eff, n, mult=1):
@@ -238,7 +273,7 @@ def run(ctx):
             ctx.notes.append("time budget reached after %d of %d scripts" % (c0, len(cases)))
             break
         part = cases[c0:c0 + chunk]
-        results = stoch_gen.run_batch("stoch_gen", "child_run", part, kind="shim", timeout=ctx.n(20, 120))
+        results = stoch_gen.run_batch("stoch_gen", "child_run_seq", part, kind="shim", timeout=ctx.n(20, 120))
         ops, meta = [], []
         for ci, (case, res) in enumerate(zip(part, results)):
             if res is None:
@@ -254,8 +289,14 @@ def run(ctx):
                               (res.get("exception") or res.get("crash")), small(case))
                 continue
             arr = res["arr"]
-            rates = stoch_gen.Rates(arr, edge=case["edge"])
+            rates = own_rates(case, arr)
             eng = engine_io.eng_json(arr, edge=case["edge"])
+            if case.get("units"):
+                ctx.count("units_time_" + case["units"]["time"])
+                ctx.count("units_quantity_" + case["units"]["quantity"])
+            if any(isinstance(v, dict) and any("," in kk for kk in v) for r_ in case["net"]["reactions"] for v in (r_.get("k+"), r_.get("k-"))) or \
+                    any(isinstance(sp_.get("D"), dict) and any("," in kk for kk in sp_["D"]) for sp_ in case["net"]["species"]):
+                ctx.count("scripts_with_multi_environment_keys")
             ctx.count("scripts_" + case["option"])
             ctx.count("space_" + case["kind"])
             if case.get("cls"):
@@ -320,7 +361,7 @@ def run(ctx):
                 if o.get("complete"):
                     ctx.disagree("gillespie_step", cse, "engine stepped", "model: a0 = 0")
                     continue
-                if rparse(o["a0"]) != extra:
+                if not close(_fl(rparse(o["a0"])), extra, rel=1e-9):
                     ctx.disagree("gillespie_step", cse, {"oracle_a0": _f(extra)}, {"a0": o["a0"]}, note="model a0 differs from the oracle's CME sum")
                     continue
                 if rparse(o["margin"]) < Fraction(1, 10 ** 9):
@@ -352,8 +393,8 @@ def run(ctx):
 
 def replay(ctx, rec):
     case = rec.get("case", rec)
-    base = {k: case[k] for k in ("net", "space", "kind", "option", "seed", "dt", "tmax", "state", "max_iter", "edge", "chem") if k in case}
-    res = stoch_gen.run_batch("stoch_gen", "child_run", [base], kind="shim", timeout=60)[0]
+    base = {k: case[k] for k in ("net", "space", "kind", "option", "seed", "dt", "tmax", "state", "max_iter", "edge", "chem", "units", "before", "same_object") if k in case}
+    res = stoch_gen.run_batch("stoch_gen", "child_run_seq", [base], kind="shim", timeout=60)[0]
     if res is None or res.get("hang") or "crash" in res or "exception" in res:
         return False, {"case": base, "impl": res}
 
@@ -368,7 +409,7 @@ def replay(ctx, rec):
         def count(self, *a, **k):
             pass
     c = _C()
-    rates = stoch_gen.Rates(res["arr"], edge=base.get("edge"))
+    rates = own_rates(base, res["arr"])
     st = {"steps": 0, "changed": 0}
     if base["option"] == "gillespie":
         check_gillespie(c, base, res, rates, st)
